@@ -2073,7 +2073,7 @@ ARR_METHODS = {'sum', 'cumsum', 'astype', 'reshape', 'argsort', 'copy', 'view', 
 PY_BUILTINS = {'len', 'int', 'float', 'bool', 'min', 'max', 'abs', 'round', 'range', 'tuple', 'list', 'dict',
                'isinstance', 'print', 'enumerate', 'zip', 'type', 'str', 'sorted',
                # contract language
-               'forall', 'exists', 'implies', 'old', 'ite', 'real', 'toint', 'floor', 'iff', 'select', 'arrlen',
+               'forall', 'exists', 'implies', 'old', 'ite', 'real', 'toint', 'floor', 'iff', 'select', 'arrlen', 'sqrt',
                'ValueError', 'TypeError'}
 
 PYOPS = {ast.Add: lambda a, b: a + b, ast.Sub: lambda a, b: a - b, ast.Mult: lambda a, b: a * b,
